@@ -87,6 +87,9 @@ func C14(x *Ctx) []Violation {
 	if tierThorough() {
 		k = 7
 	}
+	if x.Case.HasLabel("alias:other-pkg-name") || x.Case.HasLabel("import:sanitise-equal-triple") || x.Case.HasLabel("alias:differs-between-files") {
+		k += 3 // order-dependent conflict resolution shows in a fraction of the processes only
+	}
 	for i := 0; i < k; i++ {
 		saved := x.Env.Extra
 		if i == 0 {
